@@ -53,6 +53,8 @@ impl<T> ResourceStorage<T> {
 
 	pub fn remove_and_add(&mut self, remove_test: impl FnMut(&T) -> bool) {
 		for (_, resource) in self.resources.drain_filter(remove_test) {
+			#[cfg(kira_verif)]
+			crate::verif_hooks::yield_point("resources.remove_and_add.in_drain");
 			self.unused_resource_producer
 				.push(resource)
 				.unwrap_or_else(|_| panic!("unused resource producer is full"));
